@@ -3,7 +3,7 @@
    engine_forward.c for SISO actuators with dyntype none/integrator/filter/filterexact/muscle,
    gaintype fixed/affine/muscle, biastype none/affine/muscle; muscle functions of engine_util_misc.c). *)
 From Coq Require Import ZArith List Bool PrimFloat Reals.
-From MJV Require Import Lib.Num Lib.NumR Model.Actuation Proof.ActuationProof.
+From MJV Require Import Lib.Num Lib.NumR Model.Spatial Model.Actuation Proof.ActuationProof.
 Import ListNotations.
 Open Scope R_scope.
 
@@ -16,40 +16,72 @@ Theorem C27_clip_id : forall x lo hi : R, lo <= x <= hi -> clip x lo hi = x.
 Proof. exact clip_id. Qed.
 Print Assumptions C27_clip_id.
 
-(* controls: clamped into ctrlrange when ctrllimited (and clamping is enabled), identity inside the range *)
+(* controls (control index space): a limited control is clamped into ITS ctrlrange (unless
+   mjDSBL_CLAMPCTRL), identity inside the range *)
 Theorem C27_ctrl_clamped :
-  forall (a : @Actuator R) (u : R),
-    a_ctrllimited a = true -> fst (a_ctrlrange a) <= snd (a_ctrlrange a) ->
-    fst (a_ctrlrange a) <= clamp_ctrl false a u <= snd (a_ctrlrange a) /\
-    (fst (a_ctrlrange a) <= u <= snd (a_ctrlrange a) -> clamp_ctrl false a u = u).
-Proof. intros a u Hl Hr. split; [apply clamp_ctrl_range; auto|apply clamp_ctrl_id]. Qed.
+  forall lo hi u : R, lo <= hi ->
+    (lo <= clamp_ctrl false (true, lo, hi) u <= hi) /\
+    (lo <= u <= hi -> clamp_ctrl false (true, lo, hi) u = u).
+Proof. intros lo hi u Hr. split; [apply clamp_ctrl_range; auto|apply clamp_ctrl_id]. Qed.
 Print Assumptions C27_ctrl_clamped.
 
 (* mjDSBL_CLAMPCTRL, or ctrllimited off: the control is used as given *)
 Theorem C27_ctrl_unclamped :
-  forall (a : @Actuator R) (u : R) (noclamp : bool),
-    noclamp = true \/ a_ctrllimited a = false -> clamp_ctrl noclamp a u = u.
+  forall (lim : bool) (lo hi u : R) (noclamp : bool),
+    noclamp = true \/ lim = false -> clamp_ctrl noclamp (lim, lo, hi) u = u.
 Proof. exact clamp_ctrl_off. Qed.
 Print Assumptions C27_ctrl_unclamped.
 
-(* forcerange: the i-th entry of actuator_force of an enabled force-limited actuator is within range *)
+(* forcerange, one step of the clamp loop.  Two index spaces: the range is the parameter
+   a_forcerange of the ACTUATOR (actuator index), the entries clamped are the OUTPUT block
+   [a_outadr, a_outadr + a_outnum) of that actuator.  For a scalar actuator the entry of its block is
+   clipped with its own range; every entry outside its block is untouched; nothing happens when the
+   actuator is not force-limited or belongs to a disabled group. *)
+Theorem C27_clamp_uses_own_range :
+  forall (mask : Z) (f : list R) (a : @Actuator R) (o : Z),
+    wf_act a -> is_so3 a = false -> inblock a o -> (o < Z.of_nat (length f))%Z ->
+    rdz (clamp_block mask f a) o =
+    if a_forcelimited a && negb (actuatorDisabled mask (a_group a))
+    then clip (rdz f o) (fst (a_forcerange a)) (snd (a_forcerange a)) else rdz f o.
+Proof. exact clamp_block_scalar. Qed.
+Print Assumptions C27_clamp_uses_own_range.
+
+Theorem C27_clamp_frame :
+  forall (mask : Z) (f : list R) (a : @Actuator R) (o : Z),
+    wf_act a -> ~ inblock a o -> rdz (clamp_block mask f a) o = rdz f o.
+Proof. exact clamp_block_other. Qed.
+Print Assumptions C27_clamp_frame.
+
+Theorem C27_clamp_skipped :
+  forall (mask : Z) (f : list R) (a : @Actuator R),
+    a_forcelimited a = false \/ actuatorDisabled mask (a_group a) = true -> clamp_block mask f a = f.
+Proof. exact clamp_block_skipped. Qed.
+Print Assumptions C27_clamp_skipped.
+
+(* so3 servo (3 outputs): the norm of its output block ends below forcerange[1] of that actuator *)
+Theorem C27_so3_force_clamped :
+  forall (mask : Z) (f : list R) (a : @Actuator R),
+    wf_act a -> is_so3 a = true -> a_forcelimited a = true -> actuatorDisabled mask (a_group a) = false ->
+    0 <= snd (a_forcerange a) -> (a_outadr a + 3 <= Z.of_nat (length f))%Z ->
+    norm3 (vec3_at (clamp_block mask f a) (a_outadr a)) <= snd (a_forcerange a).
+Proof. exact clamp_block_so3. Qed.
+Print Assumptions C27_so3_force_clamped.
+
+(* whole pipeline, any actuator list mixing scalar and multi-output actuators: the actuator_force
+   entry at the output address of an enabled force-limited scalar actuator lies within that
+   actuator's forcerange, provided later actuators' blocks do not contain that address (the compiler's
+   cumulative layout outadr[i] = sum of outnum[j < i], checked by the driver on every model) *)
 Theorem C27_force_clamped :
-  forall (mask : Z) (h : R) (tendons : list (bool * R * R)) (acts : list (@Actuator R))
-         (us : list R) (st : list (R * R * R)) (i : nat) (dz : @Actuator R * R * (R * R * R)),
-    (i < length (zipped acts us st))%nat ->
-    let a := fst (fst (nth i (zipped acts us st) dz)) in
+  forall (mask : Z) (h : R) (nout : nat) (tendons : list (bool * R * R)) (ctrl len vel : list R)
+         (pre post : list (@Actuator R * R)) (a : @Actuator R) (act : R),
+    wf_act a -> is_so3 a = false -> others_apart post (a_outadr a) ->
+    (a_outadr a < Z.of_nat nout)%Z ->
     a_forcelimited a = true -> actuatorDisabled mask (a_group a) = false ->
     fst (a_forcerange a) <= snd (a_forcerange a) ->
-    fst (a_forcerange a) <= nth i (actuator_forces mask h tendons acts us st) 0 <= snd (a_forcerange a).
+    fst (a_forcerange a) <= rdz (actuator_forces mask h nout tendons ctrl len vel (pre ++ (a, act) :: post)) (a_outadr a)
+    <= snd (a_forcerange a).
 Proof. exact enabled_force_in_range. Qed.
 Print Assumptions C27_force_clamped.
-
-Theorem C27_force_clamp_id :
-  forall (mask : Z) (a : @Actuator R) (f : R),
-    a_forcelimited a = false \/ actuatorDisabled mask (a_group a) = true \/
-    fst (a_forcerange a) <= f <= snd (a_forcerange a) -> clamp_force mask a f = f.
-Proof. exact clamp_force_id. Qed.
-Print Assumptions C27_force_clamp_id.
 
 (* activations: mj_nextActivation lands in actrange when actlimited, and is the Euler step when the
    step stays inside the range (dyntype other than filterexact) *)
@@ -89,16 +121,28 @@ Theorem C27_disabled_group_bit :
 Proof. intros mask g. split; [apply disabled_group_bit|apply disabled_group_outside]. Qed.
 Print Assumptions C27_disabled_group_bit.
 
-(* an actuator of a disabled group has zero actuator_force after the whole pipeline (gain/bias, tendon
-   force scaling, forcerange clamp), for every state, control and parameter set *)
+(* an actuator of a disabled group (scalar or so3): every entry of its output block is zero after the
+   whole pipeline (gain/bias or so3 law, tendon force scaling, forcerange clamp), for every state,
+   control and parameter set, given the non-overlapping output layout *)
 Theorem C27_disabled_zero_force :
-  forall (mask : Z) (h : R) (tendons : list (bool * R * R)) (acts : list (@Actuator R))
-         (us : list R) (st : list (R * R * R)) (i : nat) (dz : @Actuator R * R * (R * R * R)),
-    (i < length (zipped acts us st))%nat ->
-    actuatorDisabled mask (a_group (fst (fst (nth i (zipped acts us st) dz)))) = true ->
-    nth i (actuator_forces mask h tendons acts us st) 0 = 0.
+  forall (mask : Z) (h : R) (nout : nat) (tendons : list (bool * R * R)) (ctrl len vel : list R)
+         (pre post : list (@Actuator R * R)) (a : @Actuator R) (act : R) (k : nat),
+    wf_act a -> others_apart (pre ++ post) (a_outadr a + Z.of_nat k) ->
+    (Z.of_nat k < a_outnum a)%Z -> (a_outadr a + a_outnum a <= Z.of_nat nout)%Z ->
+    actuatorDisabled mask (a_group a) = true ->
+    rdz (actuator_forces mask h nout tendons ctrl len vel (pre ++ (a, act) :: post)) (a_outadr a + Z.of_nat k) = 0.
 Proof. exact disabled_zero_force. Qed.
 Print Assumptions C27_disabled_zero_force.
+
+(* mjDSBL_ACTUATION: act_dot, actuator_force and qfrc_actuator are all zero *)
+Theorem C27_actuation_disabled_zero :
+  forall (mask : Z) (h : R) (nout nv : nat) (noclamp : bool) (lims : list (bool * R * R))
+         (ctrl len vel : list R) (xs : list (@Actuator R * R)) (tendons : list (bool * R * R)) (moment : list (list R))
+         (dofs : list (option R * bool * R * R)),
+    fwd_actuation true mask h nout nv noclamp lims ctrl len vel xs tendons moment dofs =
+    (map (fun _ => 0) xs, repeat 0 nout, repeat 0 nv).
+Proof. exact actuation_off_zero. Qed.
+Print Assumptions C27_actuation_disabled_zero.
 
 (* and a zero force contributes nothing to qfrc_actuator: dropping the actuator leaves moment^T force unchanged *)
 Theorem C27_zero_force_no_contribution :
